@@ -726,6 +726,23 @@ def parse_float_model(it, st, s, name):
                 yield s4, (it.ok(fresh) if good else it.err(err))
 
 
+def M_dyn_error_is(it, ctx, args, st):
+    """<dyn Error>::is::<T>(): the dynamic type of the boxed error is the type of the model value standing for it"""
+    v = args[0]
+    while isinstance(v, Ptr):
+        v = st.deref(v)
+    if isinstance(v, Agg) and v.name in ('Box', 'std::boxed::Box'):
+        v = st.deref_all(v.fields[0].fields[0])
+    T = ctx.gargs[0]
+    tname = last_seg(T[1]) if T[0] == 'path' else ty_str(T)
+    if isinstance(v, Agg):
+        yield st, z3.BoolVal(last_seg(v.name) == tname)
+    elif isinstance(v, BStr):
+        yield st, z3.BoolVal(tname in ('String', 'str'))
+    else:
+        raise Unsupported(f'<dyn Error>::is::<{ty_str(T)}> of {v!r:.60}')
+
+
 def M_slice_first_last(last):
     def f(it, ctx, args, st):
         """<[T]>::first / last -> Option<&T>"""
@@ -2316,6 +2333,7 @@ MODELS = [
     (r'<' + P + r'(?:result::Result|option::Option)<.*> as ' + P + r'iter::IntoIterator>::into_iter', M_res_into_iter, lambda it, ctx, args, st: isinstance(args[0], Enum) or (isinstance(args[0], Ptr) and isinstance(st.deref_all(args[0]), Enum))),
     (r'<(?:[iu](?:8|16|32|64|128|size)|f64|f32|bool) as ' + P + r'str::FromStr>::from_str', M_from_str_trait),
     (P + r'str::<impl str>::split_once::<char>', M_str_split_once_char),
+    (r'<\(?dyn ' + P + r'error::Error[^>]*\)?>::is::<.*>', M_dyn_error_is),
     (P + r'slice::<impl \[.*\]>::first', M_slice_first_last(False)), (P + r'slice::<impl \[.*\]>::last', M_slice_first_last(True)),
     (P + r'str::<impl str>::find::<(?:&str|char)>', M_str_find(False)), (P + r'str::<impl str>::rfind::<(?:&str|char)>', M_str_find(True)),
     (P + r'str::<impl str>::starts_with::<&str>', M_str_starts_with_str), (P + r'str::<impl str>::ends_with::<&str>', M_str_ends_with_str),
